@@ -14,6 +14,7 @@ mod numrun;
 mod oracle;
 mod re;
 mod rng;
+mod script;
 mod tables;
 mod timerange;
 mod run;
@@ -102,6 +103,7 @@ fn gen_stream(stream: &str, n: u64, seed: u64) {
             let x: String = if r.chance(2, 3) && !cs.is_empty() { let a = r.usize(cs.len()); let b = a + r.usize(cs.len() - a + 1); cs[a..b].iter().collect() } else { (0..r.below(3)).map(|_| *r.pick(&['a', 'ä', 'z', '𝄞'])).collect() };
             writeln!(w, "poslaw {} {}", hex(&s), hex(&x)).unwrap(); },
         "sortlaw" => for _ in 0..n { let args = call::gen_args(&mut r, "sort"); if let Some(a @ slac::Value::Array(_)) = args.first() { writeln!(w, "sortlaw {}", show_in(a)).unwrap(); } },
+        "script" => for _ in 0..n { writeln!(w, "{}", script::gen_script_line(&mut r)).unwrap(); },
         "dcall" => { let bs = slac::stdlib::builtins(); for _ in 0..n { for f in &bs { writeln!(w, "{}", call::gen_dcall_line(&mut r, f)).unwrap(); } } }
         "env" => for _ in 0..n { let big = r.chance(1, 10); let len = 1 + r.usize(if big { 200 } else { 20 }); let wide = r.chance(1, 2); writeln!(w, "{}", tree::gen_env_line(&mut r, len, wide)).unwrap(); },
         "envex" => { let a = tree::env_alphabet().len() as u64; for len in 1..=(n as usize) { for i in 0..a.pow(len as u32) { writeln!(w, "{}", tree::env_exhaustive(i, len)).unwrap(); } } }
@@ -149,6 +151,9 @@ fn unicode_tables() {
     show_ranges("caseIgnorable", &ranges(|c| c != 'Σ' && probe(c) == (true, false)));
     println!("/-- Cased and not Case_Ignorable -/");
     show_ranges("casedNotIgnorable", &ranges(|c| c == 'Σ' || probe(c) == (true, true)));
+    // `Debug for str`: characters written as `\\u{…}` (not printable, or Grapheme_Extend), recovered by formatting each char
+    println!("/-- characters that `Debug for str` writes as a `\\u{{…}}` escape -/");
+    show_ranges("debugUnicodeEscaped", &ranges(|c| format!("{:?}", c.to_string()).starts_with("\"\\u{")));
     println!("end UnicodeTables\nend Slac");
 }
 
